@@ -31,6 +31,10 @@ enum Call {
     /// fft_inv_into twice into a prefilled destination
     InvIntoTwice { a: Poly, b: Poly, dst: u8, fill: i32 },
     UpdateN { log: u8 },
+    /// a forward transform that is NOT followed by an inverse on this object (a caller who only wants the spectrum, or who inverts
+    /// on another object): fft(a, n << pad) when `into` is false, fft_into into a zeroed buffer otherwise. What the next calls compute
+    /// must not depend on it (scratch buffers left in a state that only the inverse resets)
+    ForwardOnly { a: Poly, pad: u8, into: bool },
     /// continue on a clone of the object (derive(Clone)); the original is dropped
     CloneSwap,
     /// continue on FFT::default()
@@ -168,7 +172,7 @@ fn run<F: Float>(c: &Case, budget: f64, maxlen: u32) -> CaseResult {
     for (step, call) in c.calls.iter().enumerate() {
         let polys: Vec<&Poly> = match call {
             Call::Mul { a, b } | Call::MulInto { a, b, .. } | Call::Spectrum { a, b, .. } | Call::CrossInverse { a, b } | Call::InvIntoTwice { a, b, .. } => vec![a, b],
-            Call::FftIntoTwice { a } | Call::MulAliased { a, .. } => vec![a],
+            Call::FftIntoTwice { a } | Call::MulAliased { a, .. } | Call::ForwardOnly { a, .. } => vec![a],
             Call::UpdateN { .. } | Call::CloneSwap | Call::FreshDefault => vec![],
         };
         if polys.iter().any(|p| p.len > maxlen) {
@@ -368,6 +372,30 @@ fn run<F: Float>(c: &Case, budget: f64, maxlen: u32) -> CaseResult {
                 obj = FFT::<F>::default();
                 table = 4;
             }
+            Call::ForwardOnly { pad, into, .. } => {
+                if va.is_empty() {
+                    continue;
+                }
+                let n = pow2_at_least(va.len()) << (pad % 3);
+                let spec = if *into {
+                    let mut acc = vec![Complex::<F>::new(F::ZERO, F::ZERO); n];
+                    obj.fft_into(&va, n, &mut acc);
+                    acc
+                } else {
+                    obj.fft(&va, n)
+                };
+                vensure!(spec.len() == n, "spectrum-length", "{}: forward transform returned {} values for n = {}", what, spec.len(), n);
+                // the spectrum itself is judged through a *fresh* object's inverse, so this object's scratch state stays as the
+                // forward transform left it
+                let back = FFT::<F>::new().fft_inv(&spec);
+                for i in 0..n {
+                    let w = if i < va.len() { va[i] as i64 } else { 0 };
+                    vensure!(back[i] == w, "forward-only", "{}: the inverse (fresh object) of the forward transform gives {} at {}, expected {}", what, back[i], i, w);
+                }
+                table = table.max(n);
+                st.label("forward-without-inverse");
+                st.nontrivial = true;
+            }
             Call::UpdateN { log } => {
                 let n = 1usize << (*log as usize % 13);
                 obj.update_n(n);
@@ -429,6 +457,7 @@ fn call(max_log: u32) -> impl Strategy<Value = Call> {
         6 => (1u32..=(1 << max_log.min(9))).prop_flat_map(poly).prop_map(|a| Call::FftIntoTwice { a }),
         8 => (pair(), 0u8..3, any::<i32>()).prop_map(|((a, b), dst, fill)| Call::InvIntoTwice { a, b, dst, fill: fill % 1000 }),
         6 => (0u8..13).prop_map(|log| Call::UpdateN { log }),
+        10 => ((1u32..=(1 << max_log.min(9))).prop_flat_map(poly), 0u8..3, any::<bool>()).prop_map(|(a, pad, into)| Call::ForwardOnly { a, pad, into }),
         4 => Just(Call::CloneSwap),
         1 => Just(Call::FreshDefault),
     ]
